@@ -64,7 +64,11 @@ fn part(rng: &mut Rng, lex: &Lexicon) -> String {
     }
 }
 
-pub const PUNCTS: [&str; 19] = [", ", ",", "; ", " ; ", ": ", "! ", "? ", ". ", " / ", " (", ") ", " … ", " — ", "\" ", " , ", ",\n", " - ", " – ", "  -  "];
+pub const PUNCTS: [&str; 27] = [
+    ", ", ",", "; ", " ; ", ": ", "! ", "? ", ". ", " / ", " (", ") ", " … ", " — ", "\" ", " , ", ",\n", " - ", " – ", "  -  ",
+    // the same marks with no space on either side
+    ".", ";", ":", "!", "?", "/", "…", "—",
+];
 
 pub fn run(ctx: &Ctx) -> Outcome {
     let n_split = ctx.n(600_000, 12_000_000);
@@ -216,7 +220,7 @@ pub fn run(ctx: &Ctx) -> Outcome {
     if !ctx.quick() {
         super::legs::fuzz_leg(ctx, &mut rep, 45);
     }
-    let rule = "clause 1: prefix-length sweep (A = L filler words for every L in 0..400, thorough 0..1200; B = a spelled multi-word number; counter prefix_length_sweep_cases); every pair of texts A, B of 1..2 words (thorough: B up to 3) over a 16/17-word alphabet per language around a fixed separator at thresholds 0 and 10 (counter exhaustive_small_alphabet_pairs); texts A, B from hostile text, linking sentences and the annotator-state templates (fr: determiner x number|filler x neuf x number|filler|virgule, several per text; en: o between number words / fillers / punctuation), S = 3..5 self-checked filler words ending a sentence, thresholds 0,5,10: rewrite(A S B) == rewrite(A) S rewrite(B); clause 2: spelled a, punctuation p (19 kinds, each containing a non-space character other than - and ', or a dash set off by spaces on both sides), spelled b -> 'a p b'; non-trivial = both parts contain something that is rewritten / every punctuated pair";
+    let rule = "clause 1: prefix-length sweep (A = L filler words for every L in 0..400, thorough 0..1200; B = a spelled multi-word number; counter prefix_length_sweep_cases); every pair of texts A, B of 1..2 words (thorough: B up to 3) over a 16/17-word alphabet per language around a fixed separator at thresholds 0 and 10 (counter exhaustive_small_alphabet_pairs); texts A, B from hostile text, linking sentences and the annotator-state templates (fr: determiner x number|filler x neuf x number|filler|virgule, several per text; en: o between number words / fillers / punctuation), S = 3..5 self-checked filler words ending a sentence, thresholds 0,5,10: rewrite(A S B) == rewrite(A) S rewrite(B); clause 2: spelled a, punctuation p (27 kinds, eight of them with no space on either side; each containing a non-space character other than - and ', or a dash set off by spaces on both sides), spelled b -> 'a p b'; non-trivial = both parts contain something that is rewritten / every punctuated pair";
     finish(ctx, rep, rule, &["separator words are fillers self-checked against the running library (never number words, linking words or annotator triggers)", "clause 2 is conditioned on both numbers passing their own C01 round-trip"], vec![])
 }
 
